@@ -4,8 +4,20 @@ MESH_REAL = ["pkg/netceptor (routing, flooding, forwarding, ageing)", "pkg/tickr
              "pkg/framer + netceptor.ExternalBackend/netMessageConn on framed links"]
 MESH_STUB = ["UDP/TCP/websocket sockets (replaced by simnet datagram sessions and simulated byte streams)"]
 
+HOOK_COMMITS = []
+
+NOT_APPLICABLE = {
+    "C20": "pure function of its inputs (names, key, validity window): no schedule, clock, fault or second party for a simulator to "
+           "control; see DESIGN.md §6",
+}
+
+TECH = "deterministic simulation with fault injection (seeded plans, fake clock, simulated transport)"
+
 CHECKS = {
     "C01": {
+        "level_text": "seeded search over topologies x fault histories x delivery delays with the real Netceptor code on a simulated clock "
+                      "and network; final tables compared with an independent all-pairs shortest path computation",
+        "level_note": "sampling, not enumeration; FIFO control links; trusted base: Go synctest fake clock, simnet transport",
         "level": "exploration",
         "quick": {"runs": 480, "per_proc": 30},
         "thorough": {"runs": 24000, "per_proc": 100},
@@ -17,5 +29,51 @@ CHECKS = {
         "assumptions": ["control links deliver in order (FIFO), as the property's quantifier states",
                         "a restarted node comes back at least 1.5 s after it stopped (epoch granularity)",
                         "settle bound = idle limit + 5 s + 3 route periods + 12 s after the last event"],
+    },
+    "C02": {
+        "level": "exploration",
+        "level_text": "seeded search over node/service names, payload sizes up to the MTU, topologies mixing datagram links and framed byte "
+                      "streams with seeded fragmentation, concurrent senders; every received datagram is matched against the multiset of sends",
+        "level_note": "sampling; 64-bit name-hash collisions are out of reach of random search; trusted base as C01",
+        "quick": {"runs": 400, "per_proc": 25},
+        "thorough": {"runs": 30000, "per_proc": 100},
+        "rule": "one run = 2-6 nodes with hostile node names (case variants, ':', spaces, UTF-8, long), 1-4 listeners each with 1-8 byte "
+                "service names (8-byte, high-bit, look-alikes of reserved names), 20-400 datagrams of boundary and random sizes sent "
+                "concurrently over paths of datagram and framed links with seeded chunking; strict batch: multiset of (listener, source, "
+                "bytes) received == sent; fault batch (link cuts): never wrong, never twice; distinct_nontrivial counts distinct "
+                "(nodes, links, framed links, cut, number of sizes, name set) classes",
+        "real": MESH_REAL + ["pkg/netceptor PacketConn ReadFrom/WriteTo"], "stub": MESH_STUB,
+        "assumptions": ["mesh converged before sending (6 s warm-up)", "reader buffers are larger than the MTU"],
+    },
+    "C06": {
+        "level": "exploration",
+        "level_text": "single-step differential probes of a real node with stale/replayed/self-origin updates through a scripted peer, plus a "
+                      "relay-discipline monitor over the complete wire record of runs with loss, duplication, reordering, cuts and restarts",
+        "level_note": "sampling; link delay << seen-update expiry; trusted base as C01",
+        "quick": {"runs": 480, "per_proc": 30},
+        "thorough": {"runs": 60000, "per_proc": 100},
+        "rule": "one run = 3-6 real nodes on lossy/duplicating/reordering datagram links, one scripted peer on a clean link, 4-30 events "
+                "(stale-update probes of 8 variants, node restarts with a new epoch, cuts, heals); oracles: picture unchanged and no relay "
+                "for every stale probe, fresh probe applied and relayed exactly once per other neighbour, per-(node, update, session) relay "
+                "count <= 1, never back on the session of first arrival, relayed copy identical except forwarder, every update stops "
+                "circulating within a bound, final pictures equal real adjacencies; distinct_nontrivial counts distinct (nodes, links, "
+                "probe-variant set) classes",
+        "real": MESH_REAL, "stub": MESH_STUB,
+        "assumptions": ["the first routing message on a fresh session is the handshake, not an update (protocol definition)",
+                        "suspected-duplicate notices are flooded unconditionally (once per node); only 'changes nothing' is asserted for them"],
+    },
+    "C10": {
+        "level": "exploration",
+        "level_text": "seeded probes (datagram, ping, traceroute) over chains, rings and random graphs with every hop budget class, and "
+                      "forged two- and three-node routing loops built by scripted peers; reach, expiry reporter and forward counts are "
+                      "compared with the route read from the nodes' own tables and with the wire record",
+        "level_note": "sampling; node default hop budget >= mesh diameter so that replies and notices can return",
+        "quick": {"runs": 320, "per_proc": 20},
+        "thorough": {"runs": 20000, "per_proc": 60},
+        "rule": "one run = one topology (chain/ring/random, 2-8 nodes, framed and datagram links), 30-120 probes with budgets drawn from "
+                "{0,1,255, d-1,d,d+1, uniform 0..255}; loop scenarios poison update IDs so that each cycle node keeps a private forged "
+                "view; distinct_nontrivial counts distinct (shape, n, default budget, probe kinds, loops) classes",
+        "real": MESH_REAL + ["pkg/netceptor ping/traceroute"], "stub": MESH_STUB,
+        "assumptions": ["route update timers held off (1 h period) so the tables read are the tables used"],
     },
 }
